@@ -9,12 +9,17 @@ recorded observation is judged by TLC (ReactionTextTrace).
 import re
 
 from formula_common import enc_rational
-from numbers_common import dec_of
+from numbers_common import dec_of, float_of
 
 ONE = {"ip": 1, "fd": 0, "fp": 0}
 
 
 # ---------------------------------------------------------------- events -> text
+DEFAULT_CFG = {"spc": "normal", "eol": "lf", "gmode": "default", "ctoks": "default", "msfk": False, "dq": False,
+               "argname": "", "argref": "", "argparam": {"some": False}}
+NO_LIST = {"given": False, "keys": [], "form": "list"}
+
+
 def coef_text(c):
     s = str(c["ip"])
     if c["fd"]:
@@ -22,12 +27,23 @@ def coef_text(c):
     return s
 
 
+def mantissa(v):
+    digs = "".join(str(d) for d in v["digs"])
+    return digs[0] + (("." + digs[1:]) if len(digs) > 1 else "")
+
+
 def param_text(v, style):
     digs = "".join(str(d) for d in v["digs"])
     sign = "-" if v["neg"] else ""
     e = v["e"]
     if style == "sci":
-        return "%s%s%se%d" % (sign, digs[0], ("." + digs[1:]) if len(digs) > 1 else "", e)
+        return "%s%se%d" % (sign, mantissa(v), e)
+    if style == "sciE":
+        return "%s%sE%d" % (sign, mantissa(v), e)
+    if style == "sciP":
+        return "%s%se%s%02d" % (sign, mantissa(v), "-" if e < 0 else "+", abs(e))
+    if style == "pow10":
+        return "10**%d" % e
     if style == "int":
         return sign + digs.ljust(e + 1, "0")
     if e >= 0:
@@ -37,52 +53,69 @@ def param_text(v, style):
     return "%s0.%s%s" % (sign, "0" * (-e - 1), digs)
 
 
-def term_text(ev):
+def param_event_text(ev):
+    kind = ev.get("kind", "num")
+    if kind == "sym":
+        return "'%s'" % ev["name"]
+    t = param_text(ev["v"], ev["style"])
+    return t + ev["expr"] if kind == "qty" else t
+
+
+def term_text(ev, gap):
     if ev["form"] == "inact":
-        return "(%s %s)" % (coef_text(ev["coef"]), ev["key"]["t"])
+        return "(%s%s%s)" % (coef_text(ev["coef"]), gap, ev["key"]["t"])
     if ev["form"] == "bare":
         return ev["key"]["t"]
-    if ev["form"] == "nstar":
-        return "%s * %s" % (coef_text(ev["coef"]), ev["key"]["t"])
-    return "%s %s" % (coef_text(ev["coef"]), ev["key"]["t"])
+    if ev["form"] in ("nstar", "decstar"):
+        return "%s%s*%s%s" % (coef_text(ev["coef"]), gap, gap, ev["key"]["t"])
+    return "%s%s%s" % (coef_text(ev["coef"]), gap, ev["key"]["t"])
 
 
 def events_doc(events):
-    """-> (doc: list of line texts, klass, allowed keys or None)"""
+    """-> (doc: list of line texts, klass, allowed record, cfg record).  Mirrors the way
+    ReactionText.tla writes the text (TLC compares the two)."""
     doc, line, nside, nkw = [], "", 0, 0
-    klass, allowed = "", None
+    klass, allowed, cfg = "", dict(NO_LIST), dict(DEFAULT_CFG)
     for ev in events:
         k = ev["k"]
+        wide, tight = cfg["spc"] == "wide", cfg["spc"] == "tight"
+        gap = "  " if wide else " "
+        semi = " ;  " if wide else (";" if tight else "; ")
+        comma = " ,  " if wide else ("," if tight else ", ")
         if k == "allowed":
-            allowed = list(ev["keys"])
+            allowed = {"given": True, "keys": list(ev["keys"]), "form": ev.get("form", "list")}
+        elif k == "config":
+            cfg = dict(ev["cfg"])
         elif k in ("term", "inact", "unknown"):
-            line += (" + " if nside else "") + term_text(ev)
+            sep = ("  +  " if wide else " + ") if nside else ("  " if (wide and line == "") else "")
+            line += sep + term_text(ev, gap)
             nside += 1
         elif k in ("arrow", "wrongarrow"):
-            line += " %s " % ev["a"]
+            line += ("   %s  " if wide else " %s ") % ev["a"]
             nside = 0
             if not klass:
                 normal = "Reaction" if ev["a"] == "->" else "Equilibrium"
                 other = "Equilibrium" if ev["a"] == "->" else "Reaction"
                 klass = normal if k == "arrow" else other
         elif k == "param":
-            line += "; " + param_text(ev["v"], ev["style"])
+            line += semi + param_event_text(ev)
         elif k == "kw":
-            line += ("; " if nkw == 0 else ", ") + "%s='%s'" % (ev["key"], ev["val"])
+            q = '"' if cfg["dq"] else "'"
+            line += (semi if nkw == 0 else comma) + "%s=%s%s%s" % (ev["key"], q, ev["val"], q)
             nkw += 1
-        elif k == "comment":
-            doc.append(ev["c"])
+        elif k in ("comment", "stale"):
+            doc.append(ev["c"]["t"])
         elif k in ("newline", "finish", "missingarrow"):
             if k == "missingarrow":
                 klass = ev["klass"]
             if line or k != "finish":
-                doc.append(line)
+                doc.append(line + (" " if wide else ""))
             line, nside, nkw = "", 0, 0
         elif k in ("print", "parse", "result"):
             pass
         else:
             raise ValueError(k)
-    return doc, klass, allowed
+    return doc, klass, allowed, cfg
 
 
 # ---------------------------------------------------------------- projections
@@ -99,12 +132,26 @@ def project_map(m):
 def project_param(p):
     if p is None:
         return {"some": False}
-    if isinstance(p, bool) or not isinstance(p, (int, float)):
+    if isinstance(p, bool):
         return None
-    d = dec_of(p)
-    if d is None:
-        return None
-    return {"some": True, "v": d}
+    if isinstance(p, (int, float)):
+        d = dec_of(p)
+        return None if d is None else {"some": True, "kind": "num", "v": d}
+    if hasattr(p, "dimensionality") and hasattr(p, "magnitude"):
+        try:
+            d = dec_of(float(p.magnitude))
+        except Exception:
+            return None
+        return None if d is None else {"some": True, "kind": "qty", "v": d, "unit": str(p.dimensionality)}
+    # a symbolic mass-action constant: MassAction(Symbol(unique_keys=(name,)))
+    try:
+        if type(p).__name__ == "MassAction" and len(p.args) == 1 and type(p.args[0]).__name__ == "Symbol":
+            uk = p.args[0].unique_keys
+            if len(uk) == 1 and isinstance(uk[0], str):
+                return {"some": True, "kind": "sym", "name": uk[0]}
+    except Exception:
+        pass
+    return None
 
 
 def project_rxn(r):
@@ -127,37 +174,83 @@ def _classes(klass, system):
     from chempy import Reaction, Equilibrium, ReactionSystem
     if not system:
         return Reaction if klass == "Reaction" else Equilibrium
-    if klass == "Reaction":
+    if klass in ("Reaction", ""):
         return ReactionSystem
     from chempy.equilibria import EqSystem
     return EqSystem
 
 
-def read(doc, klass, system, allowed, nochecks):
-    """Hand the text to the real reader.  -> (object(s), list of Reaction objects)"""
+def _container(allowed):
+    """The allowed-key list in the container the case asks for."""
+    if not allowed["given"]:
+        return None
+    keys, form = list(allowed["keys"]), allowed["form"]
+    if form == "tuple":
+        return tuple(keys)
+    if form == "set":
+        return set(keys)
+    if form == "str":
+        return " ".join(keys)
+    if form == "dict":
+        from collections import OrderedDict
+        from chempy import Substance
+        return OrderedDict((k, Substance(k)) for k in keys)
+    return keys
+
+
+def join_doc(doc, eol):
+    if eol == "crlf":
+        return "\r\n".join(doc) + "\r\n"
+    if eol == "lfnt":
+        return "\n".join(doc)
+    return "\n".join(doc) + "\n"
+
+
+def read(doc, klass, system, allowed, cfg, nochecks, use_args=True):
+    """Hand the text to the real reader under the configuration.  -> (object, list of Reactions)"""
     from chempy import Substance
-    text = "\n".join(doc)
+    text = join_doc(doc, cfg["eol"])
+    keys = _container(allowed)
+    rkw = {}
+    if cfg["gmode"] == "empty":
+        rkw["globals_"] = {}
+    elif cfg["gmode"] == "none":
+        rkw["globals_"] = False
+    if nochecks:
+        rkw["checks"] = ()
     if not system:
         cls = _classes(klass, False)
-        kw = {"checks": ()} if nochecks else {}
-        r = cls.from_string(text, allowed, **kw)
+        if use_args:
+            if cfg["argname"]:
+                rkw["name"] = cfg["argname"]
+            if cfg["argref"]:
+                rkw["ref"] = cfg["argref"]
+            if cfg["argparam"]["some"]:
+                rkw["param"] = float_of(cfg["argparam"]["v"])
+        r = cls.from_string(text, keys, **rkw)
         return r, [r]
     cls = _classes(klass, True)
     kw = {"substance_factory": Substance}
+    if rkw:
+        kw["rxn_parse_kwargs"] = rkw
     if nochecks:
-        kw["rxn_parse_kwargs"] = {"checks": ()}
         kw["checks"] = ()
-    rs = cls.from_string(text + "\n", allowed, **kw)
+    if cfg["ctoks"] == "custom":
+        kw["comment_tokens"] = ("//", "%")
+    if cfg["msfk"]:
+        kw["missing_substances_from_keys"] = True
+    rs = cls.from_string(text, keys, **kw)
     return rs, list(rs.rxns)
 
 
-def observe(doc, klass, system, allowed, nochecks, want_rt):
+def observe(doc, klass, system, allowed, cfg, nochecks, want_rt, override=None):
     """Everything C12 looks at for one text, projected.  nochecks: switch the constructor's
-    documented default checks (all_integral, any_effect, duplicate) off."""
+    documented default checks (all_integral, any_effect, consistent_units, duplicate) off."""
     obs = {"doc": doc, "klass": klass, "raised": False, "exc": "", "lines": [], "copy_eq": True,
-           "copy_lines": [], "rts": [], "retried": False}
+           "copy_lines": [], "rts": [], "retried": False, "substances": [], "copy_indep": True,
+           "after_lines": [], "copy_over_lines": []}
     try:
-        obj, rxns = read(doc, klass, system, allowed, nochecks)
+        obj, rxns = read(doc, klass, system, allowed, cfg, nochecks)
     except Exception as e:
         obs["raised"] = True
         obs["exc"] = "%s: %s" % (type(e).__name__, str(e)[:120])
@@ -166,7 +259,7 @@ def observe(doc, klass, system, allowed, nochecks, want_rt):
         # separate "reading the text" from the constructor's default checks: read again with the
         # checks switched off; if that succeeds the reading itself is what gets compared
         try:
-            obj, rxns = read(doc, klass, system, allowed, True)
+            obj, rxns = read(doc, klass, system, allowed, cfg, True)
         except Exception:
             return obs
         obs["retried"] = True
@@ -177,23 +270,38 @@ def observe(doc, klass, system, allowed, nochecks, want_rt):
         obs["unencodable"] = True
         return obs
     obs["lines"] = lines
-    # copy
+    if system:
+        obs["substances"] = sorted(str(k) for k in obj.substances)
+    # copy: equal, same content; independent of the original; copy(param=...) replaces only the parameter
     try:
-        if system:
-            copies = [r.copy() for r in rxns]
-            obs["copy_eq"] = all(bool(c == r) and bool(r == c) for c, r in zip(copies, rxns))
-        else:
-            c = obj.copy()
-            copies = [c]
-            obs["copy_eq"] = bool(c == obj) and bool(obj == c) and c is not obj
+        copies = [r.copy() for r in rxns]
+        obs["copy_eq"] = all(bool(c == r) and bool(r == c) and c is not r for c, r in zip(copies, rxns))
         cl = [project_rxn(c) for c in copies]
         obs["copy_lines"] = cl if all(x is not None for x in cl) else []
+        indep = True
+        for c, r in zip(copies, rxns):
+            for attr in ("reac", "prod", "inact_reac", "inact_prod"):
+                d = getattr(c, attr)
+                for k in list(d):
+                    d[k] = d[k] + 1
+                d["@@extra"] = 3
+            c.data["@@"] = 1
+            indep = indep and bool(c != r) and not bool(c == r)
+        obs["copy_indep"] = indep
+        al = [project_rxn(r) for r in rxns]
+        obs["after_lines"] = al if all(x is not None for x in al) else []
+        if override is not None:
+            ol = [project_rxn(r.copy(param=float_of(override))) for r in rxns]
+            obs["copy_over_lines"] = ol if all(x is not None for x in ol) else []
     except Exception as e:
         obs["copy_eq"] = False
         obs["copy_exc"] = "%s: %s" % (type(e).__name__, str(e)[:120])
     if not want_rt:
         return obs
     # print under every requested option (with_param, with_name), then read the printed text
+    # (default spelling configuration, same key list / reader options, no keyword arguments)
+    from chempy import Substance
+    rcfg = dict(cfg, spc="normal", eol="lf", gmode="default", dq=False)
     printers = []
     for wp, wn, rtno in want_rt:
         bits = "%d%d" % (wp, wn)
@@ -207,6 +315,10 @@ def observe(doc, klass, system, allowed, nochecks, want_rt):
                 printers.append(("str", wp, wn, rtno, lambda o: str(o)))
             if not wp and not wn:
                 printers.append(("sdef", wp, wn, rtno, lambda o: o.string()))
+            if wp and not wn:
+                # the substances mapping of string(): keys are printed through their Substance
+                printers.append(("smap", wp, wn, rtno, lambda o: o.string(
+                    dict((k, Substance(k)) for k in o.keys()), with_param=True)))
     for kind, wp, wn, rtno, pr in printers:
         rtno = bool(nochecks or rtno)
         rt = {"kind": kind, "wp": bool(wp), "wn": bool(wn), "raised": False, "lines": [], "eq": False, "text": ""}
@@ -217,12 +329,12 @@ def observe(doc, klass, system, allowed, nochecks, want_rt):
             while pdoc and pdoc[-1] == "":
                 pdoc.pop()
             try:
-                obj2, rxns2 = read(pdoc, klass, system, allowed, rtno)
+                obj2, rxns2 = read(pdoc, klass, system, allowed, rcfg, rtno, use_args=False)
             except Exception:
                 if rtno:
                     raise
                 # as above: tell the reading of the printed text from the constructor's checks
-                obj2, rxns2 = read(pdoc, klass, system, allowed, True)
+                obj2, rxns2 = read(pdoc, klass, system, allowed, rcfg, True, use_args=False)
                 rt["retried"] = True
             ls = [project_rxn(r) for r in rxns2]
             if any(x is None for x in ls):
@@ -285,8 +397,10 @@ def wholly_parenthesised(t):
 def rand_coef(rng, decimal_ok=True):
     u = rng.random()
     if decimal_ok and u < 0.15:
-        fd = rng.choice([1, 1, 2, 3])
-        fp = rng.randrange(1, 10 ** fd)
+        fd = rng.choice([1, 1, 2, 3, 4, 5])
+        fp = rng.randrange(0 if rng.random() < 0.2 else 1, 10 ** fd)      # "2.0", "2.50" are decimals too
+        if fp == 0:
+            return {"ip": rng.choice([1, 2, 7, 12]), "fd": fd, "fp": 0}
         return {"ip": rng.choice([0, 0, 1, 2, 7, 12]), "fd": fd, "fp": fp}
     return {"ip": rng.choice([1, 2, 2, 3, 4, 5, 10, 12, 100, 999, 1000, rng.randint(1, 1000)]), "fd": 0, "fp": 0}
 
@@ -303,12 +417,47 @@ def rand_param(rng):
         digs.pop()
     e = rng.randint(-15, 15)
     v = {"neg": rng.random() < 0.05, "digs": digs, "e": e}
-    styles = ["sci"]
+    styles = ["sci", "sciP", "sciE"]
     if -6 <= e <= 15:
         styles.append("fix")
     if 0 <= e <= 8 and len(digs) <= e + 1:
         styles.append("int")
+    if digs == [1] and 0 <= e <= 8 and not v["neg"]:
+        styles.append("pow10")
     return v, rng.choice(styles)
+
+
+UNIT_EXPRS = [("/second", "1/s"), ("/molar/second", "1/(s*M)"), ("*molar", "M"), ("/molar**2/second", "1/(s*M**2)")]
+COMMENTS = {"#": ["# a comment", "#", "   # A -> B; 1", "# x = y"], "//": ["// note", "  // A -> B"], "%": ["% c", "  % A = B; 1"],
+            "": ["", "  "]}
+
+
+def rand_cfg(rng, system):
+    """A reader / spelling configuration (ReactionText!Configure): mostly one dimension off default."""
+    cfg = dict(DEFAULT_CFG)
+    cfg["argparam"] = {"some": False}
+    for _ in range(rng.choice([1, 1, 2, 3])):
+        d = rng.choice(["spc", "eol", "gmode", "dq", "ctoks", "args"])
+        if d == "spc":
+            cfg["spc"] = rng.choice(["wide", "tight"])
+        elif d == "eol":
+            cfg["eol"] = rng.choice(["lfnt", "crlf"])
+        elif d == "gmode":
+            cfg["gmode"] = rng.choice(["empty", "none"])
+        elif d == "dq":
+            cfg["dq"] = True
+        elif d == "ctoks" and system:
+            cfg["ctoks"] = "custom"
+        elif d == "args" and not system:
+            if rng.random() < 0.6:
+                cfg["argname"] = rng.choice(["n1", "fwd"])
+            if rng.random() < 0.5:
+                cfg["argref"] = rng.choice(["r9", "doi:1/2"])
+            if rng.random() < 0.5:
+                v, _ = rand_param(rng)
+                v["neg"] = False
+                cfg["argparam"] = {"some": True, "v": v}
+    return cfg
 
 
 class Gen(object):
@@ -325,7 +474,7 @@ class Gen(object):
                 return t
         return "A"
 
-    def _side(self, side, allowed, fault_at=None):
+    def _side(self, side, allowed):
         r = self.rng
         evs = []
         n = r.randint(1, self.max_terms)
@@ -337,26 +486,36 @@ class Gen(object):
             if u < 0.15:
                 evs.append({"k": "inact", "side": side, "form": "inact", "coef": rand_coef(r), "key": key_rec(t)})
                 continue
-            form = r.choice(["bare", "bare", "n", "n", "nstar", "dec"])
+            form = r.choice(["bare", "bare", "n", "n", "nstar", "dec", "decstar"])
             if form == "bare":
                 c = dict(ONE)
-            elif form == "dec":
+            elif form in ("dec", "decstar"):
                 c = rand_coef(r)
                 if c["fd"] == 0:
-                    form = "n"
+                    form = "n" if form == "dec" else "nstar"
             else:
                 c = rand_coef(r, decimal_ok=False)
             evs.append({"k": "term", "side": side, "form": form, "coef": c, "key": key_rec(t)})
         return evs
 
-    def _line(self, arrow, allowed, with_name=True):
+    def _line(self, arrow, allowed, cfg, with_name=True):
         r = self.rng
         evs = self._side("reac", allowed)
         evs.append({"k": "arrow", "a": arrow})
         evs += self._side("prod", allowed)
-        if r.random() < 0.6:
-            v, st = rand_param(r)
-            evs.append({"k": "param", "v": v, "style": st})
+        if r.random() < 0.6 and not cfg["argparam"]["some"]:
+            u = r.random()
+            if u < 0.12:
+                evs.append({"k": "param", "kind": "sym", "name": r.choice(["k", "k1", "K_w", "kf_2"])})
+            elif u < 0.24 and cfg["gmode"] != "empty":
+                v, st = rand_param(r)
+                if st == "pow10":
+                    st = "sci"
+                ex, dim = r.choice(UNIT_EXPRS)
+                evs.append({"k": "param", "kind": "qty", "v": v, "style": st, "expr": ex, "unit": dim})
+            else:
+                v, st = rand_param(r)
+                evs.append({"k": "param", "kind": "num", "v": v, "style": st})
             if r.random() < 0.3:
                 ks = ["ref"] + (["name"] if with_name else [])
                 r.shuffle(ks)
@@ -365,24 +524,43 @@ class Gen(object):
         return evs
 
     def text(self, system=None, fault=None):
-        """One well-formed text (single line or system); fault in (None, 'unknown', 'missingarrow',
-        'wrongarrow') injects exactly one rejection class."""
+        """One text (single line or system); fault in (None, 'unknown', 'missingarrow', 'wrongarrow',
+        'stale') injects exactly one rejection class."""
         r = self.rng
         if system is None:
             system = r.random() < 0.3
+        if fault == "stale":
+            system = True
+        if fault in ("missingarrow", "wrongarrow"):
+            system = False
         arrow = r.choice(["->", "->", "="])
         evs = []
         allowed = None
         if fault == "unknown" or r.random() < 0.25:
             allowed = sorted(set(self._key() for _ in range(r.randint(2, 6))))
-            evs.append({"k": "allowed", "keys": allowed})
+            if len(allowed) < 2:
+                allowed = sorted(set(allowed + ["A", "B"]))
+            evs.append({"k": "allowed", "keys": allowed, "form": r.choice(["list", "list", "tuple", "set", "dict", "str"])})
+        cfg = dict(DEFAULT_CFG)
+        if r.random() < 0.35 or fault == "stale":
+            cfg = rand_cfg(r, system)
+            if allowed and system and fault != "unknown" and r.random() < 0.3:
+                cfg["msfk"] = True
+            if cfg != DEFAULT_CFG:
+                evs.append({"k": "config", "cfg": cfg})
+        active = ["//", "%"] if cfg["ctoks"] == "custom" else ["#"]
         nl = r.randint(1, self.max_lines) if system else 1
-        if fault in ("missingarrow", "wrongarrow"):
-            nl, system = 1, False
         for i in range(nl):
             if system and r.random() < 0.4:
-                evs.append({"k": "comment", "c": r.choice(["# a comment", "#", "   # A -> B; 1", "", "  ", "# x = y"])})
-            ln = self._line(arrow, allowed, with_name=not system or r.random() < 0.2)
+                tok = r.choice(active + [""])
+                evs.append({"k": "comment", "c": {"t": r.choice(COMMENTS[tok]), "tok": tok}})
+            if fault == "stale" and i == nl - 1:
+                tok = r.choice([t for t in ("#", "//", "%") if t not in active])
+                evs.append({"k": "stale", "c": {"t": r.choice(COMMENTS[tok]), "tok": tok}})
+            ln = self._line(arrow, None if cfg["msfk"] and r.random() < 0.5 else allowed, cfg,
+                            with_name=not system or r.random() < 0.2)
+            # a system refuses duplicate names only through its default checks; seeded texts are read
+            # with the checks off, names may repeat
             if fault == "missingarrow":
                 ln = [e for e in ln if e["k"] in ("term", "inact") and e["side"] == "reac"]
                 evs += ln
@@ -408,43 +586,81 @@ class Gen(object):
                 evs.append({"k": "newline"})
         if system and r.random() < 0.3:
             evs.append({"k": "newline"})
-            evs.append({"k": "comment", "c": "# end"})
+            tok = r.choice(active)
+            evs.append({"k": "comment", "c": {"t": r.choice(COMMENTS[tok]), "tok": tok}})
         evs.append({"k": "finish"})
-        return evs, (system or any(e["k"] == "comment" for e in evs))
+        return evs, system
 
 
 # ---------------------------------------------------------------- structural facts about events
 def line_facts(events):
     """Bookkeeping over the generated tokens (no denotation): does the text contain an injected
-    fault, is it printable (no parenthesised term, no name), on which sides does a bare term
-    stand whose key begins with '(' (and does such a key also end with ')')."""
-    fault = any(e["k"] in ("unknown", "missingarrow", "wrongarrow") for e in events)
-    inact = any(e["k"] in ("inact",) or (e["k"] == "unknown" and e["form"] == "inact") for e in events)
-    named = any(e["k"] == "kw" and e["key"] == "name" for e in events)
-    bare = [e for e in events if e["k"] in ("term", "unknown") and e["form"] == "bare" and e["key"]["lead"] == "("]
-    # sides on which the printed text has a term without coefficient whose key begins with '(':
-    # the coefficients written for that key on that side of that line add up to 1
-    from fractions import Fraction
-    sums, ln = {}, 0
+    fault; is it printable (no parenthesised term) and under which printing options (names
+    cannot be printed parseably, quantities neither); is it read by the system readers."""
+    fault = any(e["k"] in ("unknown", "missingarrow", "wrongarrow", "stale") for e in events)
+    inact = any(e["k"] == "inact" or (e["k"] == "unknown" and e["form"] == "inact") for e in events)
+    cfg = dict(DEFAULT_CFG)
     for e in events:
-        if e["k"] in ("newline",):
-            ln += 1
-        if e["k"] == "term" and e["key"]["lead"] == "(":
-            c = e["coef"]
-            kk = (ln, e["side"], e["key"]["t"])
-            sums[kk] = sums.get(kk, 0) + Fraction(c["ip"] * 10 ** c["fd"] + c["fp"], 10 ** c["fd"])
-    rt_bare = sorted(set(k[1] for k, v in sums.items() if v == 1))
-    rt_closed = any(k[2].endswith(")") for k, v in sums.items() if v == 1)
-    opts = [(wp, wn, True) for wp in (True, False) for wn in (True, False) if not (wn and named)]
-    return {"fault": fault, "printable": not fault and not inact, "print_opts": opts, "rt_bareparen": rt_bare, "rt_bareparen_closed": rt_closed,
-            "bareparen": sorted(set(e["side"] for e in bare)),
-            "bareparen_closed": any(e["key"]["t"].endswith(")") for e in bare),
-            "unknown_bareparen": any(e["k"] == "unknown" for e in bare),
-            "allowed": any(e["k"] == "allowed" for e in events)}
+        if e["k"] == "config":
+            cfg = e["cfg"]
+    named = any(e["k"] == "kw" and e["key"] == "name" for e in events) or bool(cfg["argname"])
+    qty = any(e["k"] == "param" and e.get("kind") == "qty" for e in events) and cfg["gmode"] != "none"
+    nlines = sum(1 for e in events if e["k"] in ("newline", "finish", "missingarrow")
+                 ) if any(e["k"] in ("term", "inact", "unknown") for e in events) else 0
+    opts = [(wp, wn, True) for wp in (True, False) for wn in (True, False) if not (wn and named) and not (wp and qty)]
+    system = (sum(1 for e in events if e["k"] == "newline") > 0 or any(e["k"] in ("comment", "stale") for e in events)
+              or cfg["msfk"] or cfg["ctoks"] != "default")
+    return {"fault": fault, "printable": not fault and not inact and bool(opts), "print_opts": opts,
+            "system": system, "allowed": any(e["k"] == "allowed" for e in events), "nlines": nlines}
 
 
 # ---------------------------------------------------------------- lexer for foreign lines
 _TERM_RE = re.compile(r"^(?:(\d+)(?:\.(\d{1,3}))?( \* | ))?(\S+)$")
+
+
+def _lex_param(p):
+    msym = re.match(r"^'([A-Za-z_][A-Za-z0-9_]*)'$", p)
+    if msym:
+        return {"k": "param", "kind": "sym", "name": msym.group(1)}
+    unit = None
+    for ex, dim in UNIT_EXPRS:
+        if p.endswith(ex) and re.match(r"^[-0-9.e]+$", p[:-len(ex)]):
+            unit = (ex, dim)
+            p = p[:-len(ex)]
+            break
+    m = re.match(r"^(-?)(\d+)(?:\.(\d+))?(?:e(-?\d+))?$", p)
+    if not m:
+        return None
+    ip, fp, ex = m.group(2), m.group(3), m.group(4)
+    if len(ip) > 1 and ip.startswith("0"):
+        return None
+    digs = [int(ch) for ch in ip + (fp or "")]
+    e = len(ip) - 1 + int(ex or 0)
+    if ex is not None:
+        if len(ip) != 1 or ip == "0" or (fp is not None and fp.endswith("0")):
+            return None
+        style = "sci"
+    elif fp is None:
+        style = "int"
+    else:
+        style = "fix"
+    while digs and digs[0] == 0:
+        digs.pop(0)
+        e -= 1
+    trail = 0
+    while digs and digs[-1] == 0:
+        digs.pop()
+        trail += 1
+    if not digs:
+        return None
+    if style == "fix" and (trail > 1 or (trail == 1 and fp != "0")):
+        return None
+    v = {"neg": m.group(1) == "-", "digs": digs, "e": e}
+    if param_text(v, style) != p:
+        return None
+    if unit is not None:
+        return {"k": "param", "kind": "qty", "v": v, "style": style, "expr": unit[0], "unit": unit[1]}
+    return {"k": "param", "kind": "num", "v": v, "style": style}
 
 
 def lex_line(text):
@@ -496,38 +712,10 @@ def lex_line(text):
         p = parts[1]
         if not p.startswith(" "):
             return None
-        p = p[1:]
-        m = re.match(r"^(-?)(\d+)(?:\.(\d+))?(?:e(-?\d+))?$", p)
-        if not m:
+        ev = _lex_param(p[1:])
+        if ev is None:
             return None
-        ip, fp, ex = m.group(2), m.group(3), m.group(4)
-        if len(ip) > 1 and ip.startswith("0"):
-            return None
-        digs = [int(ch) for ch in ip + (fp or "")]
-        e = len(ip) - 1 + int(ex or 0)
-        if ex is not None:
-            if len(ip) != 1 or ip == "0" or (fp is not None and fp.endswith("0")):
-                return None
-            style = "sci"
-        elif fp is None:
-            style = "int"
-        else:
-            style = "fix"
-        while digs and digs[0] == 0:
-            digs.pop(0)
-            e -= 1
-        trail = 0
-        while digs and digs[-1] == 0:
-            digs.pop()
-            trail += 1
-        if not digs:
-            return None
-        if style == "fix" and (trail > 1 or (trail == 1 and fp != "0")):
-            return None
-        v = {"neg": m.group(1) == "-", "digs": digs, "e": e}
-        if param_text(v, style) != p:
-            return None
-        evs.append({"k": "param", "v": v, "style": style})
+        evs.append(ev)
     if len(parts) > 2:
         kws = parts[2]
         if not kws.startswith(" "):
